@@ -3,6 +3,8 @@
 
 package lcm
 
+import "time"
+
 // Hooks for the verification harness in /verif. Compiled only with -tags verif.
 
 // VerifEvent is the exported view of one recorded history event.
@@ -53,5 +55,42 @@ func (c *Coordinator) VerifSetEvents(evs []VerifEvent) {
 	c.events = c.events[:0]
 	for _, e := range evs {
 		c.events = append(c.events, event{eventType: e.Type, eventResult: e.Result, id: e.ID, value: e.Value})
+	}
+}
+
+// verifSlowRecorder waits before it records the outcome of an operation: the
+// goroutine of the process is descheduled between the return of the RPC and
+// the recording, a schedule the Go runtime may produce by itself.
+type verifSlowRecorder struct {
+	historyRecorder
+	d time.Duration
+}
+
+func (r *verifSlowRecorder) recordWriteFailed(id uint64) {
+	time.Sleep(r.d)
+	r.historyRecorder.recordWriteFailed(id)
+}
+
+func (r *verifSlowRecorder) recordWriteCompleted(id uint64, value uint64) {
+	time.Sleep(r.d)
+	r.historyRecorder.recordWriteCompleted(id, value)
+}
+
+func (r *verifSlowRecorder) recordReadFailed(id uint64) {
+	time.Sleep(r.d)
+	r.historyRecorder.recordReadFailed(id)
+}
+
+func (r *verifSlowRecorder) recordReadCompleted(id uint64, value uint64) {
+	time.Sleep(r.d)
+	r.historyRecorder.recordReadCompleted(id, value)
+}
+
+// VerifDelayCompletions makes every process wait d before it records an
+// outcome (schedule search of the harness). Call before the first
+// VerifSchedule.
+func (c *Coordinator) VerifDelayCompletions(d time.Duration) {
+	for _, p := range c.processes {
+		p.recorder = &verifSlowRecorder{historyRecorder: p.recorder, d: d}
 	}
 }
